@@ -2276,6 +2276,15 @@ func (p *Parser) evaluateStatement(ctx context) (Statement, error) {
 
 			if err == nil && stmt == nil {
 				stmt, err = p.evaluateExpression(ctx)
+
+				// As in Go, an expression statement must be a call.
+				if err == nil {
+					switch stmt.StatementType() {
+					case STATEMENT_TYPE_FUNCTION_CALL, STATEMENT_TYPE_APP_CALL, STATEMENT_TYPE_COPY, STATEMENT_TYPE_INPUT, STATEMENT_TYPE_READ, STATEMENT_TYPE_EXISTS, STATEMENT_TYPE_ITOA:
+					default:
+						err = p.atError("expression is evaluated but not used", token)
+					}
+				}
 			}
 		}
 	}
